@@ -4,6 +4,7 @@ import (
 	"fmt"
 	"math/rand"
 	"sort"
+	"strings"
 
 	asv1 "github.com/pingcap/advanced-statefulset/client/apis/apps/v1"
 	"github.com/pingcap/advanced-statefulset/client/apis/apps/v1/helper"
@@ -625,6 +626,17 @@ func (r *Runner) userPodOp() {
 	w := r.W
 	p := r.pick(w.PodNames())
 	switch x := r.Rng.Intn(10); {
+	case x < 1 && r.Cfg.Claims:
+		// somebody deletes a claim whose pod is absent (left behind by an earlier scale-in)
+		for _, o := range w.Srv.Snap().List(simapi.PVCs, NS) {
+			c := o.(*corev1.PersistentVolumeClaim)
+			i := strings.Index(c.Name, "-")
+			if i > 0 && w.GetPod(c.Name[i+1:]) == nil && len(c.Finalizers) == 0 {
+				w.Srv.Remove(simapi.PVCs, NS, c.Name)
+				r.logf("user deletes claim %s", c.Name)
+				break
+			}
+		}
 	case x < 4 && p != "":
 		w.UserDeletePod(p)
 		r.logf("user delete pod %s", p)
